@@ -208,6 +208,217 @@ fn run_behaviour(b: &Value, classes: &mut HashSet<String>, transitions: &mut Has
     out
 }
 
+// ---------------------------------------------------------------------------------------------------
+// Transition tables (EmitTables): one line per buffer state, every row executed on a real Channel put
+// in that state through its public fields.
+
+use sozu_command_lib::buffer::growable::Buffer;
+
+/// A real Buffer in state (pos, end, cap) whose data() is `content` (len = end - pos).
+fn make_buffer(pos: usize, end: usize, cap: usize, content: &[u8]) -> Result<Buffer, String> {
+    let mut b = Buffer::with_capacity(cap);
+    let mut mem = vec![0xEEu8; pos];
+    mem.extend_from_slice(content);
+    b.space()[..end].copy_from_slice(&mem);
+    b.fill(end);
+    b.consume(pos);
+    if b.available_data() != end - pos || b.available_space() != cap - end || b.capacity() != cap {
+        return Err(format!("cannot build buffer ({pos},{end},{cap}) through the public API"));
+    }
+    Ok(b)
+}
+
+fn pattern(n: usize, salt: u8) -> Vec<u8> {
+    (0..n).map(|i| ((i * 7 + 3) as u8) ^ salt).collect()
+}
+
+fn drain_fd(fd: i32) -> Vec<u8> {
+    let mut out = Vec::new();
+    let mut buf = [0u8; 4096];
+    loop {
+        let n = unsafe { libc::recv(fd, buf.as_mut_ptr() as *mut libc::c_void, buf.len(), libc::MSG_DONTWAIT) };
+        if n <= 0 {
+            break;
+        }
+        out.extend_from_slice(&buf[..n as usize]);
+    }
+    out
+}
+
+fn run_table(t: &Value, transitions: &mut u64) -> Option<Value> {
+    let init = t["init"].as_u64().unwrap_or(0);
+    let max = t["max"].as_u64().unwrap_or(0);
+    let (pos, end, cap) = (u(&t["buf"][0]), u(&t["buf"][1]), u(&t["buf"][2]));
+    let data = end - pos;
+    let fail = |table: &str, row: &Value, class: &str, msg: String| {
+        Some(json!({"class": class, "table": table, "buf": t["buf"], "init": init, "max": max, "row": row,
+                    "problems": [format!("[{class}] buffer (pos {pos}, end {end}, cap {cap}) {table} row {row}: {msg}")]}))
+    };
+    let mut rig = match Rig::new(init, max) {
+        Ok(r) => r,
+        Err(e) => return Some(json!({"class": "setup", "problems": [e.to_string()]})),
+    };
+    let proj = |b: &Buffer| (b.available_data(), b.available_space(), b.capacity());
+    // ---- write_message
+    for row in t["write"].as_array().into_iter().flatten() {
+        *transitions += 1;
+        let len = u(&row[0]);
+        let content = pattern(data, 0x11);
+        let r = catch_unwind(AssertUnwindSafe(|| -> Result<(), (String, String)> {
+            rig.tx.back_buf = make_buffer(pos, end, cap, &content).map_err(|e| ("harness".to_string(), e))?;
+            rig.tx.interest = Ready::READABLE;
+            rig.tx.readiness = Ready::EMPTY;
+            let msg = make_msg(5, len - D).ok_or(("harness".to_string(), format!("no message of {len} bytes")))?;
+            let ok = rig.tx.write_message(&msg).is_ok();
+            let got = (ok as usize, proj(&rig.tx.back_buf));
+            let want = (u(&row[1]), (u(&row[2]), u(&row[3]), u(&row[4])));
+            if got != want {
+                return Err(("result".into(), format!("write_message({len}) gave (ok, data, space, cap) = {got:?}, spec says {want:?}")));
+            }
+            if rig.tx.interest.is_writable() != ok {
+                return Err(("result".into(), format!("write_message({len}) ok={ok} but WRITABLE interest is {}", rig.tx.interest.is_writable())));
+            }
+            let mut expect = content.clone();
+            if ok {
+                expect.extend_from_slice(&len.to_le_bytes());
+                expect.extend_from_slice(&encode_msg(&msg));
+            }
+            if rig.tx.back_buf.data() != &expect[..] {
+                return Err(("content".into(), format!("back buffer does not hold the pending bytes followed by the new frame after write_message({len})")));
+            }
+            Ok(())
+        }));
+        match r {
+            Err(p) => return fail("write", row, "panic", vh::util::panic_message(p)),
+            Ok(Err((c, m))) => return fail("write", row, &c, m),
+            Ok(Ok(())) => {}
+        }
+    }
+    // ---- writable() with one partial write of k bytes
+    for row in t["writable"].as_array().into_iter().flatten() {
+        *transitions += 1;
+        let k = u(&row[0]);
+        let content = pattern(data, 0x22);
+        let r = catch_unwind(AssertUnwindSafe(|| -> Result<(), (String, String)> {
+            rig.tx.back_buf = make_buffer(pos, end, cap, &content).map_err(|e| ("harness".to_string(), e))?;
+            rig.tx.interest = Ready::READABLE | Ready::WRITABLE;
+            rig.tx.readiness = Ready::WRITABLE;
+            shim_arm(rig.tx_fd, Some(if k == 0 { vec![] } else { vec![k] }));
+            let res = rig.tx.writable();
+            shim_disarm();
+            let n = res.map_err(|e| ("result".to_string(), format!("writable() failed: {e}")))?;
+            let b = |x: bool| x as usize;
+            let got = (proj(&rig.tx.back_buf), b(rig.tx.interest.is_writable()), b(rig.tx.readiness.is_writable()), n);
+            let want = ((u(&row[1]), u(&row[2]), u(&row[3])), u(&row[4]), u(&row[5]), u(&row[6]));
+            if got != want {
+                return Err(("result".into(), format!("writable() with {k} bytes accepted gave ((data, space, cap), I, R, n) = {got:?}, spec says {want:?}")));
+            }
+            rig.tx_expect.clear();
+            rig.tx_expect.extend(content[..k].iter().copied());
+            rig.drain_sender().map_err(|e| ("stream".to_string(), e))?;
+            rig.wire.clear();
+            if !rig.tx_expect.is_empty() || rig.tx.back_buf.data() != &content[k..] {
+                return Err(("stream".into(), format!("after writing {k} bytes the socket/back buffer do not hold the right bytes")));
+            }
+            Ok(())
+        }));
+        match r {
+            Err(p) => {
+                shim_disarm();
+                return fail("writable", row, "panic", vh::util::panic_message(p));
+            }
+            Ok(Err((c, m))) => return fail("writable", row, &c, m),
+            Ok(Ok(())) => {}
+        }
+    }
+    // ---- readable() with n bytes in the socket
+    for row in t["readable"].as_array().into_iter().flatten() {
+        *transitions += 1;
+        let n = u(&row[0]);
+        let content = pattern(data, 0x33);
+        let incoming = pattern(n, 0x44);
+        let r = catch_unwind(AssertUnwindSafe(|| -> Result<(), (String, String)> {
+            rig.rx.front_buf = make_buffer(pos, end, cap, &content).map_err(|e| ("harness".to_string(), e))?;
+            rig.rx.interest = Ready::READABLE;
+            rig.rx.readiness = Ready::READABLE;
+            rig.wire.extend(incoming.iter().copied());
+            rig.sock = 0;
+            let moved = rig.wire_move(n).map_err(|e| ("harness".to_string(), e))?;
+            if moved != n {
+                return Err(("harness".into(), format!("could only put {moved} of {n} bytes in the socket")));
+            }
+            let res = rig.rx.readable().map_err(|e| ("result".to_string(), format!("readable() failed: {e}")))?;
+            let b = |x: bool| x as usize;
+            let left = rig.sock_inq();
+            let got = (proj(&rig.rx.front_buf), left, b(rig.rx.interest.is_readable()), b(rig.rx.readiness.is_readable()), res);
+            let want = ((u(&row[1]), u(&row[2]), u(&row[3])), u(&row[4]), u(&row[5]), u(&row[6]), u(&row[7]));
+            let mut expect = content.clone();
+            expect.extend_from_slice(&incoming[..n - left.min(n)]);
+            let rest = drain_fd(rig.rx_fd);
+            if got != want {
+                return Err(("result".into(), format!("readable() with {n} bytes in the socket gave ((data, space, cap), left, I, R, n) = {got:?}, spec says {want:?}")));
+            }
+            if rig.rx.front_buf.data() != &expect[..] || rest != incoming[n - left.min(n)..] {
+                return Err(("content".into(), format!("after readable() with {n} bytes the front buffer/socket do not hold the right bytes")));
+            }
+            Ok(())
+        }));
+        match r {
+            Err(p) => return fail("readable", row, "panic", vh::util::panic_message(p)),
+            Ok(Err((c, m))) => {
+                drain_fd(rig.rx_fd);
+                return fail("readable", row, &c, m);
+            }
+            Ok(Ok(())) => {}
+        }
+    }
+    // ---- read_message() with the given frame at the head of the stream
+    for row in t["readmsg"].as_array().into_iter().flatten() {
+        *transitions += 1;
+        let (len, decl, kind) = (u(&row[0]), u(&row[1]), row[2].as_str().unwrap_or(""));
+        let want_res = row[3].as_str().unwrap_or("");
+        let r = catch_unwind(AssertUnwindSafe(|| -> Result<(), (String, String)> {
+            // the stream: this frame, then well-formed frames
+            let mut stream = frame_bytes(9, len, decl, kind).map_err(|e| ("harness".to_string(), e))?;
+            let mut id = 10;
+            while stream.len() < data {
+                stream.extend(frame_bytes(id, 13, 13, "good").map_err(|e| ("harness".to_string(), e))?);
+                id += 1;
+            }
+            let content = &stream[..data];
+            rig.rx.front_buf = make_buffer(pos, end, cap, content).map_err(|e| ("harness".to_string(), e))?;
+            rig.rx.interest = Ready::EMPTY;
+            rig.rx.readiness = Ready::EMPTY;
+            let res = rig.rx.read_message();
+            let got_res = match &res {
+                Ok(_) => "ok".to_string(),
+                Err(e) => error_name(e),
+            };
+            let got = (got_res.as_str(), proj(&rig.rx.front_buf), rig.rx.interest.is_readable() as usize);
+            let want = (want_res, (u(&row[4]), u(&row[5]), u(&row[6])), u(&row[7]));
+            if got != want {
+                return Err(("result".into(), format!("read_message() on a {kind} frame (len {len}, declared {decl}) with {data} bytes buffered gave (res, (data, space, cap), I) = {got:?}, spec says {want:?}")));
+            }
+            if let Ok(m) = res {
+                if Some(&m) != make_msg(9, len - D).as_ref() {
+                    return Err(("content".into(), format!("delivered message is not the {len}-byte frame at the head of the buffer")));
+                }
+            }
+            let consumed = data - rig.rx.front_buf.available_data();
+            if rig.rx.front_buf.data() != &content[consumed..] {
+                return Err(("content".into(), "the bytes left in the front buffer are not the rest of the stream".to_string()));
+            }
+            Ok(())
+        }));
+        match r {
+            Err(p) => return fail("readmsg", row, "panic", vh::util::panic_message(p)),
+            Ok(Err((c, m))) => return fail("readmsg", row, &c, m),
+            Ok(Ok(())) => {}
+        }
+    }
+    None
+}
+
 fn main() {
     let args: Vec<String> = std::env::args().collect();
     let mut threads = 8usize;
@@ -235,6 +446,8 @@ fn main() {
     let next = Arc::new(AtomicU64::new(0));
     let total_steps = Arc::new(AtomicU64::new(0));
     let behaviours = Arc::new(AtomicU64::new(0));
+    let tables = Arc::new(AtomicU64::new(0));
+    let table_rows = Arc::new(AtomicU64::new(0));
     let violations = Arc::new(Mutex::new(Vec::<Value>::new()));
     let classes = Arc::new(Mutex::new(HashSet::<String>::new()));
     let transitions = Arc::new(Mutex::new(HashSet::<u64>::new()));
@@ -242,6 +455,7 @@ fn main() {
     for _ in 0..threads.max(1) {
         let (lines, next, total_steps, behaviours, violations, classes, transitions) =
             (lines.clone(), next.clone(), total_steps.clone(), behaviours.clone(), violations.clone(), classes.clone(), transitions.clone());
+        let (tables, table_rows) = (tables.clone(), table_rows.clone());
         handles.push(std::thread::spawn(move || {
             let mut my_classes = HashSet::new();
             let mut my_trans = HashSet::new();
@@ -253,6 +467,22 @@ fn main() {
                 let Ok(b) = serde_json::from_str::<Value>(&lines[k]) else { continue };
                 // a violation replay file wraps the behaviour
                 let b = if b.get("behaviour").is_some() { b["behaviour"].clone() } else { b };
+                if b.get("buf").is_some() {
+                    let mut n = 0u64;
+                    let v = run_table(&b, &mut n);
+                    tables.fetch_add(1, Ordering::SeqCst);
+                    table_rows.fetch_add(n, Ordering::SeqCst);
+                    if let Some(mut v) = v {
+                        v["kind"] = json!("violation");
+                        v["op"] = json!({"op": v["table"], "res": v["class"]});
+                        v["behaviour"] = b.clone();
+                        let mut g = violations.lock().unwrap();
+                        if g.len() < 200 {
+                            g.push(v);
+                        }
+                    }
+                    continue;
+                }
                 if b.get("steps").is_none() {
                     continue;
                 }
@@ -298,5 +528,7 @@ fn main() {
         "violations": vs.len(),
         "step_classes": cl,
         "distinct_transitions": transitions.lock().unwrap().len(),
+        "tables": tables.load(Ordering::SeqCst),
+        "table_rows": table_rows.load(Ordering::SeqCst),
     }));
 }
